@@ -19,7 +19,7 @@ if [ "${MUT_TSAN:-0}" = "1" ]; then
     export HV_TSAN_BIN="${MUT_TARGET_TSAN:-/tmp/mut-target-tsan}/x86_64-unknown-linux-gnu/release/hv"
   else echo "MUTANT: tsan build failed"; tail -5 "$work/build-tsan.log"; fi
 else export HV_TSAN_BIN=/nonexistent; fi
-mkdir -p "$work/out/target-tsan"; cp /verif/known_findings.json "$work/out/" 2>/dev/null
+mkdir -p "$work/out/target-tsan"; cp /verif/known_findings.json /verif/baseline_coverage.json "$work/out/" 2>/dev/null
 VERIF_DIR="$work/out" timeout "${MUT_TIMEOUT:-900}" "$CARGO_TARGET_DIR/release/hv" "$prop" --tier "$tier" >"$work/run.log" 2>&1
 code=$?
 nsig=$(grep -c "^  signature:" "$work/run.log")
